@@ -19,6 +19,22 @@
 (*   exp   : the exact results (state, <O>, Var O, probabilities)          *)
 (* and prints them; the driver replays the group through qp.execute.       *)
 (* The operator under test is applied through the state variable psi.      *)
+(*                                                                         *)
+(* Further input classes:                                                  *)
+(*  * every one-parameter two-qubit gate of the gate table (legacy and new *)
+(*    operator interface) gets the period-shift / copy pairs (TermsP);     *)
+(*  * DATA operators: QubitUnitary, DiagonalQubitUnitary, BlockEncode as   *)
+(*    the operator under test, StatePrep as the first operation,           *)
+(*    Hermitian / Projector as the observable of expval / var, with        *)
+(*    complex array data; pairs d / conj(d) (imaginary parts differ only), *)
+(*    d / -conj(d) (real parts differ only), d / transpose(d), d / d,      *)
+(*    d / next lattice angle;                                              *)
+(*  * DERIVED tapes: the second tape of the group is obtained from the     *)
+(*    first by the tape API (copy(shots= / trainable_params= / operations= *)
+(*    / measurements=), copy(), copy(copy_operations), bind_new_parameters)*)
+(*    after the first tape's hash was (memo = "hash": read, "exec": used   *)
+(*    by a cached execution, "none": never) computed.  The model of a      *)
+(*    derived tape is its CONTENT (Derive); its key is Key(content).       *)
 (***************************************************************************)
 EXTENDS Gates, Json, FiniteSets
 CONSTANTS Angles,      \* lattice angles used for the parameter under test
@@ -57,20 +73,32 @@ TwoQ == IF Full THEN {<<"CRX", 1, <<>>>>, <<"CRY", 1, <<>>>>, <<"CRZ", 1, <<>>>>
         ELSE {<<"CRX", 1, <<>>>>, <<"CRot", 3, <<>>>>, <<"ControlledPhaseShift", 1, <<>>>>, <<"IsingXX", 1, <<>>>>, <<"PauliRot", 1, <<1, 2>>>>}
 Terms == {[g |-> b[1], np |-> b[2], x |-> <<>>, mi |-> mi, mods |-> WR1[mi], w |-> Wires1(WR1[mi])] : b \in OneQ, mi \in 1..Len(WR1)}
     \cup {[g |-> b[1], np |-> b[2], x |-> b[3], mi |-> mi, mods |-> WR2[mi], w |-> <<2, 1>>] : b \in TwoQ, mi \in 1..Len(WR2)}
+\* every other one-parameter two-qubit gate of the table: period / copy pairs (bare in the quick tier)
+TwoQP == {<<"IsingXY", 1, <<>>>>, <<"IsingYY", 1, <<>>>>, <<"IsingZZ", 1, <<>>>>, <<"PSWAP", 1, <<>>>>, <<"SingleExcitation", 1, <<>>>>,
+          <<"SingleExcitationPlus", 1, <<>>>>, <<"SingleExcitationMinus", 1, <<>>>>, <<"FermionicSWAP", 1, <<>>>>,
+          <<"CPhaseShift00", 1, <<>>>>, <<"CPhaseShift01", 1, <<>>>>, <<"CPhaseShift10", 1, <<>>>>, <<"CRY", 1, <<>>>>, <<"CRZ", 1, <<>>>>,
+          <<"MultiRZ", 1, <<>>>>} \ TwoQ
+TermsP == {[g |-> b[1], np |-> b[2], x |-> b[3], mi |-> mi, mods |-> WR2[mi], w |-> <<2, 1>>] : b \in TwoQP, mi \in 1..(IF Full THEN Len(WR2) ELSE 1)}
 BaseP(np, a) == [j \in 1..np |-> a + 2 * (j - 1)]
 Shift(p, i, d) == [p EXCEPT ![i] = @ + d]
 AllTr(np) == [j \in 1..(np + 1) |-> j - 1]
 \* mt = "": the measurement is the one the group is instantiated with; otherwise this tape measures mt
-TapeOf(t, p, tr, sh) == [ops |-> Append(Prefix, G(t.g, t.w, p, t.x, t.mods)), tr |-> tr, shots |-> sh, mt |-> ""]
+\*   ot/od: "" or the observable of expval/var on wire 1 ("Hermitian": od a 2x2 matrix, "Projector": od a 2x1 vector)
+\*   zero = TRUE: the tape does not start with Prefix (it is evaluated from |000>)
+\*   dv/dmemo: how the driver must obtain the tape object from tape 1 of the group ("" = construct it)
+TapeOps(ops, tr, sh) == [ops |-> ops, tr |-> tr, shots |-> sh, mt |-> "", ot |-> "", od |-> <<>>, zero |-> FALSE, dv |-> "", dmemo |-> ""]
+TapeOf(t, p, tr, sh) == TapeOps(Append(Prefix, G(t.g, t.w, p, t.x, t.mods)), tr, sh)
 Plain(t, p) == TapeOf(t, p, AllTr(t.np), <<>>)
-Grp(kind, i, tapes) == [mut |-> [kind |-> kind, i |-> i], tapes |-> tapes]
+AllMs == <<"state", "expval", "var", "probs", "dm">>
+GrpW(kind, i, what, ms, tapes) == [mut |-> [kind |-> kind, i |-> i, what |-> what], ms |-> ms, tapes |-> tapes]
+Grp(kind, i, tapes) == GrpW(kind, i, "", AllMs, tapes)
 A0 == CHOOSE a \in Angles : \A b \in Angles : a <= b
 
 \* ------------------------------------------------------------ the groups
 Shifts == {<<"p2pi", N \div 2>>, <<"p4pi", N>>, <<"step", 1>>}
 PeriodGroups == UNION {{Grp(k[1], i, <<Plain(t, BaseP(t.np, a)), Plain(t, Shift(BaseP(t.np, a), i, k[2]))>>)
-                          : i \in 1..t.np, a \in Angles, k \in Shifts} : t \in Terms}
-CopyGroups == {Grp("copy", 0, <<Plain(t, BaseP(t.np, a)), Plain(t, BaseP(t.np, a))>>) : t \in Terms, a \in Angles}
+                          : i \in 1..t.np, a \in Angles, k \in Shifts} : t \in Terms \cup TermsP}
+CopyGroups == {Grp("copy", 0, <<Plain(t, BaseP(t.np, a)), Plain(t, BaseP(t.np, a))>>) : t \in Terms \cup TermsP, a \in Angles}
 WrapperGroups == {Grp("wrapper", 0, <<Plain(tt[1], BaseP(tt[1].np, A0)), Plain(tt[2], BaseP(tt[2].np, A0))>>)
                     : tt \in {pp \in Terms \X Terms : pp[1].g = pp[2].g /\ pp[1].w = pp[2].w /\ pp[1].mi < pp[2].mi}}
 WireGroups == {Grp("wire", 0, <<Plain(t, BaseP(t.np, a)), Plain([t EXCEPT !.w = <<3>>], BaseP(t.np, a))>>)
@@ -90,32 +118,96 @@ PS == CHOOSE t \in Terms : t.g = "PhaseShift" /\ t.mods = <<>>
 ExtraGroups == { Grp("inj4", 0, <<Plain(RXT, <<1>>), Plain(RXT, <<2>>), Plain(RXT, <<3>>), Plain(RXT, <<4>>)>>),
                  Grp("collide3", 0, <<Plain(RXT, <<1>>), Plain(RXT, <<1 + N \div 2>>), Plain(RXT, <<3>>)>>),
                  Grp("dup3", 0, <<Plain(PS, <<1>>), Plain(PS, <<1 + N \div 2>>), Plain(PS, <<3>>)>>) }
+\* ------------------------------------------------------------ operators carrying complex array data
+MConj(m) == [k |-> m.k, e |-> TLCEval([i \in 1..Len(m.e) |-> TLCEval([j \in 1..Len(m.e[1]) |-> Conj(m.e[i][j])])])]
+MTr(m) == [k |-> m.k, e |-> TLCEval([i \in 1..Len(m.e[1]) |-> TLCEval([j \in 1..Len(m.e) |-> m.e[j][i]])])]
+\* the data at lattice angle a (theta = a*4*pi/N): a generic unitary, a diagonal of phases, a normalised vector with a relative
+\* phase e^{i theta}, a Hermitian matrix with complex off-diagonal entries, A = U/sqrt(2) for BlockEncode
+DatU(a) == Norm(MRot(a, 1, 2))
+DatD(a) == Mx(0, << <<Em(a), O>>, <<O, P(a)>> >>)
+DatV(a) == Norm(Mx(1, << <<Sqrt2>>, <<Mul(Sqrt2, P(a))>> >>))
+DatH(a) == Mx(0, << <<Two, Em(a)>>, <<E(a), mOne>> >>)
+DatB(a) == Norm(Mx(2, MScale(Sqrt2, Mx(0, MRot(a, 1, 2).e)).e))
+DataKinds == {<<"QubitUnitary", "op">>, <<"DiagonalQubitUnitary", "op">>, <<"BlockEncode", "op">>, <<"StatePrep", "prep">>,
+              <<"Hermitian", "obs">>, <<"Projector", "obs">>}
+DataOf(dk, a) == CASE dk = "QubitUnitary" -> DatU(a) [] dk = "DiagonalQubitUnitary" -> DatD(a) [] dk = "BlockEncode" -> DatB(a)
+                   [] dk \in {"StatePrep", "Projector"} -> DatV(a) [] dk = "Hermitian" -> DatH(a)
+DataMuts(dk) == {"conj", "negconj", "copy", "step"} \cup (IF dk \in {"QubitUnitary", "BlockEncode", "Hermitian"} THEN {"tr"} ELSE {})
+MutData(dk, a, mu) == CASE mu = "conj" -> Norm(MConj(DataOf(dk, a))) [] mu = "negconj" -> MNeg(MConj(DataOf(dk, a)))
+                        [] mu = "tr" -> Norm(MTr(DataOf(dk, a))) [] mu = "copy" -> DataOf(dk, a) [] mu = "step" -> DataOf(dk, a + 1)
+GD(gn, w, m) == [g |-> gn, w |-> w, p |-> <<>>, x |-> <<>>, m |-> m, mods |-> <<>>]
+RXop(a) == G("RX", <<1>>, <<a>>, <<>>, <<>>)
+\* the tape of one data operator: "op" after the prefix; "prep" first, then H H RX; "obs" measured after prefix + RX
+DataTape(d, m) ==
+  CASE d[2] = "op"   -> TapeOps(Append(Prefix, GD(d[1], IF d[1] = "BlockEncode" THEN <<2, 1>> ELSE <<1>>, m)), <<0>>, <<>>)
+    [] d[2] = "prep" -> [TapeOps(<<GD(d[1], <<1>>, m), Prefix[2], Prefix[3], RXop(A0)>>, <<0>>, <<>>) EXCEPT !.zero = TRUE]
+    [] d[2] = "obs"  -> [TapeOps(Append(Prefix, RXop(A0)), <<0, 1>>, <<>>) EXCEPT !.ot = d[1], !.od = m]
+DataGroups == UNION {{GrpW("data-" \o mu, 0, d[1], IF d[2] = "obs" THEN <<"expval", "var">> ELSE AllMs,
+                           <<DataTape(d, DataOf(d[1], a)), DataTape(d, MutData(d[1], a, mu))>>) : mu \in DataMuts(d[1]), a \in Angles}
+                       : d \in DataKinds}
+
+\* ------------------------------------------------------------ tapes derived from a tape through the tape API
+\* the CONTENT of the derived tape (what the documentation of copy / bind_new_parameters says it contains)
+LastShift(ops) == [ops EXCEPT ![Len(ops)] = [@ EXCEPT !.p = Shift(@, 1, 1)]]
+Derive(t, via) == CASE via = "shots0" -> [t EXCEPT !.shots = <<>>] [] via = "shots1" -> [t EXCEPT !.shots = <<1>>]
+                    [] via = "tr" -> [t EXCEPT !.tr = <<>>] [] via \in {"ops", "bind"} -> [t EXCEPT !.ops = LastShift(@)]
+                    [] via = "meas" -> [t EXCEPT !.mt = "expval2"] [] via \in {"plain", "copyops"} -> t
+Vias == {"shots0", "shots1", "tr", "ops", "bind", "meas", "plain", "copyops"}
+Memos == {"none", "hash", "exec"}
+DerSrc(via) == LET t == Plain(RXT, <<A0>>) IN
+               IF via = "shots0" THEN [t EXCEPT !.shots = <<1>>] ELSE IF via = "meas" THEN [t EXCEPT !.mt = "expval"] ELSE t
+DerivedGroups == {GrpW("derived", 0, via \o "/" \o memo, IF via = "meas" THEN <<"expval">> ELSE AllMs,
+                       <<DerSrc(via), [Derive(DerSrc(via), via) EXCEPT !.dv = via, !.dmemo = memo]>>) : via \in Vias, memo \in Memos}
+
 Groups == PeriodGroups \cup CopyGroups \cup WrapperGroups \cup WireGroups \cup TailGroups \cup MeasGroups \cup ExtraGroups
+          \cup DataGroups \cup DerivedGroups
 NGroups == Cardinality(Groups)
 
 \* ------------------------------------------------------------ exact results of one tape from its final state
-ValsOf(s, ex) ==
-  LET c == ex.e[1][1]
+\* os = O|s> for the observable O of expval / var:  <O> = <s|O|s>,  Var O = <s|O^2|s> - <O>^2  with <s|O^2|s> = <Os|Os> (O Hermitian)
+ValsOf(s, os) ==
+  LET ex == MatMul(Dagger(s), os)
+      c == ex.e[1][1]
   IN [st |-> s,
       ex |-> ex,
       e2 |-> MatMul(Dagger(s), ApplyGate(s, MZ, <<1>>, NW)),
-      va |-> Norm([k |-> 2 * ex.k, e |-> << <<Sub(Int2C(4^(ex.k)), Mul(c, c))>> >>]),
+      va |-> MAdd(MatMul(Dagger(os), os), MNeg(Norm([k |-> 2 * ex.k, e |-> << <<Mul(c, c)>> >>]))),
       pr |-> Norm([k |-> 2 * s.k, e |-> TLCEval([i \in 1..Len(s.e) |-> <<Mul(Conj(s.e[i][1]), s.e[i][1])>>])]),
       dm |-> MatMul(s, Dagger(s))]
 
-Init == /\ grp \in Groups /\ ti = 1 /\ pos = NPre + 1 /\ psi = PsiPrefix /\ vals = <<>> /\ done = FALSE
+\* the matrix of one operation.  Data operators, from their documentation: QubitUnitary(U) = U; DiagonalQubitUnitary(d) =
+\* diag(d) (m is stored as the diagonal matrix); StatePrep(v) on a wire in |0> = the linear map |0> -> v; BlockEncode(A) =
+\* [[A, sqrt(1 - A A^+)], [sqrt(1 - A^+ A), -A^+]], here with A A^+ = A^+ A = 1/2 (checked by BlockOk), so both roots are 1/sqrt(2)
+BlockEnc(a) == LET kk == IF a.k > 1 THEN a.k ELSE 1
+                   au == ScaleUp(a, kk)  ad == ScaleUp(Dagger(a), kk)  su == ScaleUp(Mx(1, << <<Sqrt2, O>>, <<O, Sqrt2>> >>), kk)
+               IN Norm(Mx(kk, TLCEval([i \in 1..4 |-> TLCEval([j \in 1..4 |->
+                     IF i <= 2 /\ j <= 2 THEN au.e[i][j] ELSE IF i <= 2 THEN su.e[i][j-2] ELSE IF j <= 2 THEN su.e[i-2][j]
+                     ELSE Neg(ad.e[i-2][j-2])])])))
+BlockOk(a) == EqExact(MatMul(a, Dagger(a)), Mx(1, Ident(2).e)) /\ EqExact(MatMul(Dagger(a), a), Mx(1, Ident(2).e))
+OpM(o) == CASE o.g \in {"QubitUnitary", "DiagonalQubitUnitary"} -> MData(o.m)
+            [] o.g = "StatePrep" -> Mx(o.m.k, << <<o.m.e[1][1], O>>, <<o.m.e[2][1], O>> >>)
+            [] o.g = "BlockEncode" -> BlockEnc(MData(o.m))
+            [] OTHER -> GateM(o)
+\* the observable of expval / var applied to a state
+ObsM(t) == IF t.ot = "Hermitian" THEN MData(t.od) ELSE MatMul(MData(t.od), Dagger(MData(t.od)))      \* Projector(v) = |v><v|
+ApplyObsT(s, t) == IF t.ot = "" THEN ApplyObs(s) ELSE ApplyGate(s, ObsM(t), <<1>>, NW)
+StartPos(t) == IF t.zero THEN 1 ELSE NPre + 1
+StartPsi(t) == IF t.zero THEN BasisCol(2^NW, 0) ELSE PsiPrefix
+Init == /\ grp \in Groups /\ ti = 1 /\ pos = StartPos(grp.tapes[1]) /\ psi = StartPsi(grp.tapes[1]) /\ vals = <<>> /\ done = FALSE
 Step == /\ ti <= Len(grp.tapes) /\ pos <= Len(grp.tapes[ti].ops)
-        /\ LET o == grp.tapes[ti].ops[pos] IN \E gm \in {GateM(o)} : psi' = ApplyGate(psi, gm, o.w, NW)     \* bind: evaluate the gate matrix once
+        /\ LET o == grp.tapes[ti].ops[pos] IN \E gm \in {OpM(o)} : psi' = ApplyGate(psi, gm, o.w, NW)     \* bind: evaluate the gate matrix once
         /\ pos' = pos + 1 /\ UNCHANGED <<grp, ti, vals, done>>
 EndTape == /\ ti <= Len(grp.tapes) /\ pos > Len(grp.tapes[ti].ops)
-           /\ \E ex \in {MatMul(Dagger(psi), ApplyObs(psi))} : vals' = Append(vals, ValsOf(psi, ex))
-           /\ ti' = ti + 1 /\ pos' = NPre + 1 /\ psi' = PsiPrefix
+           /\ \E os \in {ApplyObsT(psi, grp.tapes[ti])} : vals' = Append(vals, ValsOf(psi, os))
+           /\ ti' = ti + 1
+           /\ IF ti < Len(grp.tapes) THEN pos' = StartPos(grp.tapes[ti + 1]) /\ psi' = StartPsi(grp.tapes[ti + 1])
+                                     ELSE pos' = NPre + 1 /\ psi' = PsiPrefix
            /\ UNCHANGED <<grp, done>>
 
 \* ------------------------------------------------------------ classes and the verdict on the model
 NTp == Len(grp.tapes)
 Analytic(i) == grp.tapes[i].shots = <<>>
-KTape(i) == [ops |-> grp.tapes[i].ops, meas |-> <<[t |-> IF grp.tapes[i].mt = "" THEN "m" ELSE grp.tapes[i].mt, obs |-> <<>>, w |-> <<>>]>>,
+KTape(i) == [ops |-> grp.tapes[i].ops, meas |-> <<[t |-> IF grp.tapes[i].mt = "" THEN "m" ELSE grp.tapes[i].mt, obs |-> <<grp.tapes[i].ot, grp.tapes[i].od>>, w |-> <<>>]>>,
              tr |-> grp.tapes[i].tr, shots |-> grp.tapes[i].shots]
 \* the result of tape i when the group is instantiated with measurement type m
 Val(i, m) == LET mm == IF grp.tapes[i].mt = "" THEN m ELSE grp.tapes[i].mt IN
@@ -134,7 +226,7 @@ ResC == TLCEval([state |-> ClassSeq(LAMBDA a, b : EqExact(Val(a, "state"), Val(b
 SoundFor(kc, rc) == \A i, j \in 1..NTp : (kc[i] = kc[j] /\ (rc[i] > 0 \/ rc[j] > 0)) => rc[i] = rc[j]
 Emit == /\ ti > Len(grp.tapes) /\ ~done /\ done' = TRUE
         /\ \E kc \in {KeyC} : \E rc \in {ResC} :
-           PrintT(ToJson([mut |-> grp.mut, tapes |-> grp.tapes, keyc |-> kc, resc |-> rc,
+           PrintT(ToJson([mut |-> grp.mut, ms |-> grp.ms, tapes |-> grp.tapes, keyc |-> kc, resc |-> rc,
                           sound |-> [state |-> SoundFor(kc, rc.state), expval |-> SoundFor(kc, rc.expval), var |-> SoundFor(kc, rc.var),
                                      probs |-> SoundFor(kc, rc.probs), dm |-> SoundFor(kc, rc.dm)],
                           inbound |-> \A i \in 1..NTp : InBound(vals[i].st) /\ InBound(vals[i].dm),
@@ -142,7 +234,9 @@ Emit == /\ ti > Len(grp.tapes) /\ ~done /\ done' = TRUE
         /\ UNCHANGED <<grp, ti, pos, psi, vals>>
 Next == Step \/ EndTape \/ Emit
 \* the reference semantics is sane: every final state is normalised  (<psi|psi> = 1)
-Normalised == \A i \in 1..Len(vals) : EqExact(MatMul(Dagger(vals[i].st), vals[i].st), Ident(1))
+Normalised == /\ \A i \in 1..Len(vals) : EqExact(MatMul(Dagger(vals[i].st), vals[i].st), Ident(1))
+              /\ \A i \in 1..Len(grp.tapes) : \A j \in 1..Len(grp.tapes[i].ops) :
+                    grp.tapes[i].ops[j].g = "BlockEncode" => BlockOk(MData(grp.tapes[i].ops[j].m))
 \* key soundness as a state invariant (EXPECTED to be violated by the model of the code's hash: a design-level result)
 KeySound == ti > Len(grp.tapes) => \A m \in {"state", "expval", "var", "probs", "dm"} : SoundFor(KeyC, ResC[m])
 =============================================================================
